@@ -146,6 +146,17 @@ func loadKnown() knownFile {
 
 // ---- property table (ids, run counts, descriptions) lives in props.go
 
+// outDir is where evidence/ and replays/ are written: the framework
+// directory, unless VERIF_OUT_DIR redirects them (used when the checks are
+// run against a deliberately broken tree, so that the committed evidence is
+// only ever written by runs on /repo as it is).
+func outDir() string {
+	if d := os.Getenv("VERIF_OUT_DIR"); d != "" {
+		return d
+	}
+	return verifDir
+}
+
 func main() {
 	if len(os.Args) < 2 {
 		fatal2("usage: verif check <id> [--tier quick|thorough] | replay <file> | selftest")
@@ -546,8 +557,8 @@ func check(id, tier string) int {
 		}
 	}
 	if agg.violation != nil && agg.violation.Race {
-		os.MkdirAll(filepath.Join(verifDir, "replays"), 0o755)
-		violationPath = filepath.Join(verifDir, "replays", fmt.Sprintf("%s-%d-%d-race.json", id, seed, agg.violation.Run))
+		os.MkdirAll(filepath.Join(outDir(), "replays"), 0o755)
+		violationPath = filepath.Join(outDir(), "replays", fmt.Sprintf("%s-%d-%d-race.json", id, seed, agg.violation.Run))
 		b, _ := json.MarshalIndent(agg.violation, "", " ")
 		os.WriteFile(violationPath, b, 0o644)
 		exit = 1
@@ -560,8 +571,8 @@ func check(id, tier string) int {
 			// that needs process-wide state of the code under test.
 			per := (total + nproc - 1) / nproc
 			if hv := historyConfirm(bin, dir, id, tier, seed, agg.violation, (agg.violation.Run/per)*per, knownPath, workerEnv); hv != nil {
-				os.MkdirAll(filepath.Join(verifDir, "replays"), 0o755)
-				path = filepath.Join(verifDir, "replays", fmt.Sprintf("%s-%d-%d-history.json", id, seed, hv.Run))
+				os.MkdirAll(filepath.Join(outDir(), "replays"), 0o755)
+				path = filepath.Join(outDir(), "replays", fmt.Sprintf("%s-%d-%d-history.json", id, seed, hv.Run))
 				b, _ := json.MarshalIndent(hv, "", " ")
 				os.WriteFile(path, b, 0o644)
 				agg.violation = hv
@@ -685,8 +696,8 @@ func hangViolation(bin, dir, id, tier string, seed uint64, run int, knownPath st
 // minimiseAndConfirm shrinks the tape, stores the replay file under
 // /verif/replays and replays it in a fresh process.
 func minimiseAndConfirm(bin, dir string, v *replayFile, knownPath string, noMin bool, env []string) (string, bool) {
-	os.MkdirAll(filepath.Join(verifDir, "replays"), 0o755)
-	final := filepath.Join(verifDir, "replays", fmt.Sprintf("%s-%d-%d.json", v.Property, v.Seed, v.Run))
+	os.MkdirAll(filepath.Join(outDir(), "replays"), 0o755)
+	final := filepath.Join(outDir(), "replays", fmt.Sprintf("%s-%d-%d.json", v.Property, v.Seed, v.Run))
 	raw := filepath.Join(dir, "violation-raw.json")
 	b, _ := json.MarshalIndent(v, "", " ")
 	os.WriteFile(raw, b, 0o644)
